@@ -158,9 +158,14 @@ def purity_c13(cfg):
     jax, jnp, np, eqx, jinns = jx()
     import c13 as M
     n = len(cfg["pts"])
-    if cfg["kind"] == "statio":
-        # the stationary normalisation term pairs sample j with parameter row j (DESIGN.md, C12 scope): same count
-        cfg = dict(cfg, norm={k: [[0.25 * (i + 1)] for i in range(n)] for k in cfg["ukeys"]})
+    # this check attaches a parameter batch of its own (one row per interior point): no border part (its rows are the facets'
+    # points, another count) and none of the generator's own parameter batches
+    cfg = dict(cfg, bc={k: None for k in cfg["ukeys"]}, pbatch=False)
+    if cfg["kind"] != "ode":
+        # the stationary normalisation term pairs sample j with parameter row j (DESIGN.md, C12 scope): same count, for
+        # every stationary unknown (all of them in a stationary system, the stationary fields of a mixed one)
+        st = set(cfg["ukeys"]) if cfg["kind"] == "statio" else set(cfg.get("statio_unknowns") or [])
+        cfg = dict(cfg, norm={k: ([[0.25 * (i + 1)] for i in range(n)] if k in st else v) for k, v in cfg["norm"].items()})
     if len(cfg["ekeys"]) >= 2:
         # per-equation weights written in another key order than the equations, with distinct values
         cfg = dict(cfg, w=dict(cfg["w"], dyn_loss=("dict", {k: 1.0 + 0.5 * i for i, k in enumerate(reversed(cfg["ekeys"]))})))
